@@ -14,6 +14,7 @@ import copy
 import json
 import os
 import random
+import re
 import shutil
 import subprocess
 import sys
@@ -27,6 +28,8 @@ CMP = {ast.Eq: ast.NotEq, ast.NotEq: ast.Eq, ast.Lt: ast.LtE, ast.LtE: ast.Lt, a
        ast.In: ast.NotIn, ast.NotIn: ast.In, ast.Is: ast.IsNot, ast.IsNot: ast.Is}
 
 
+RX_PLUS = r"(?<!\\)([\])a-zA-Z0-9.])\+"
+RX_OPT = r"(?<!\\)([\])a-zA-Z0-9.}])\?(?![:=!<P])"
 ATTRSWAP = {"left": "right", "right": "left", "lhs": "rhs", "rhs": "lhs", "owner": "attr", "name": "namespace", "identifier": "expression",
             "expression": "identifier", "func": "args"}
 
@@ -88,6 +91,40 @@ def sites(tree):
             out.append((idx, "addsub", line, "+ <-> -"))
         if isinstance(n, ast.ExceptHandler) and n.type is not None:
             out.append((idx, "except", line, "handler re-raises"))
+        # sweep 6 operators
+        if isinstance(n, ast.Name) and isinstance(n.ctx, ast.Load) and id(n) in in_func:
+            f = parents.get(n)
+            while f is not None and not isinstance(f, (ast.FunctionDef, ast.AsyncFunctionDef, ast.Lambda)):
+                f = parents.get(f)
+            if isinstance(f, (ast.FunctionDef, ast.AsyncFunctionDef)):
+                names = sorted({a.arg for a in f.args.args + f.args.kwonlyargs if a.arg not in ("self", "cls")}
+                               | {m.id for m in ast.walk(f) if isinstance(m, ast.Name) and isinstance(m.ctx, ast.Store)})
+                if n.id in names and len(names) >= 2:
+                    other = names[(names.index(n.id) + 1) % len(names)]
+                    out.append((idx, "namesub", line, f"name {n.id} -> {other}"))
+        if isinstance(n, ast.Call) and n.keywords and any(k.arg for k in n.keywords) and id(n) in in_func:
+            for j, k in enumerate(n.keywords):
+                if k.arg:
+                    out.append((idx, f"kwdrop{j}", line, f"keyword argument {k.arg}= dropped"))
+        if isinstance(n, ast.Constant) and isinstance(n.value, str) and not is_docstring(parents.get(n), n) and line \
+                and not isinstance(parents.get(n), (ast.arg, ast.AnnAssign, ast.Subscript)):
+            if re.search(RX_PLUS, n.value) and any(c in n.value for c in "[]()\\"):
+                out.append((idx, "rxplus", line, f"regex: first + becomes *: {n.value[:30]!r}"))
+            if re.search(RX_OPT, n.value) and any(c in n.value for c in "[]()\\"):
+                out.append((idx, "rxopt", line, f"regex: first ? dropped: {n.value[:30]!r}"))
+            if n.value.isalpha() and n.value.swapcase() != n.value and len(n.value) <= 12:
+                out.append((idx, "strcase", line, f"string constant changes case: {n.value!r}"))
+        if isinstance(n, ast.Return) and isinstance(n.value, ast.Call) and len(n.value.args) == 1 and not n.value.keywords \
+                and not isinstance(n.value.args[0], ast.Starred):
+            out.append((idx, "unwrap", line, "return f(x) -> return x"))
+        if isinstance(n, ast.If) and not n.orelse and id(n) in in_func:
+            out.append((idx, "iftrue", line, "if c: -> if True:"))
+        if isinstance(n, (ast.FunctionDef,)) and n.decorator_list and id(n) in in_func | {id(n)}:
+            for j, d in enumerate(n.decorator_list):
+                if not (isinstance(d, ast.Call) and isinstance(d.func, ast.Name) and d.func.id == "_"):
+                    out.append((idx, f"decodrop{j}", line, f"decorator {ast.unparse(d)[:30]} dropped"))
+        if isinstance(n, ast.ClassDef) and len(n.bases) >= 2:
+            out.append((idx, "baseswap", line, "first two base classes exchanged"))
     return out
 
 
@@ -137,6 +174,34 @@ def apply(tree, idx, op):
         n.op = ast.Sub() if isinstance(n.op, ast.Add) else ast.Add()
     elif op == "except":
         n.body = [ast.Raise(exc=None, cause=None)]
+    elif op == "namesub":
+        f = None
+        par = {}
+        for p in ast.walk(t):
+            for c in ast.iter_child_nodes(p):
+                par[c] = p
+        f = par.get(n)
+        while not isinstance(f, (ast.FunctionDef, ast.AsyncFunctionDef)):
+            f = par.get(f)
+        names = sorted({a.arg for a in f.args.args + f.args.kwonlyargs if a.arg not in ("self", "cls")}
+                       | {m.id for m in ast.walk(f) if isinstance(m, ast.Name) and isinstance(m.ctx, ast.Store)})
+        n.id = names[(names.index(n.id) + 1) % len(names)]
+    elif op.startswith("kwdrop"):
+        del n.keywords[int(op[6:])]
+    elif op == "rxplus":
+        n.value = re.sub(RX_PLUS, lambda m: m.group(1) + "*", n.value, count=1)
+    elif op == "rxopt":
+        n.value = re.sub(RX_OPT, lambda m: m.group(1), n.value, count=1)
+    elif op == "strcase":
+        n.value = n.value.swapcase()
+    elif op == "unwrap":
+        n.value = n.value.args[0]
+    elif op == "iftrue":
+        n.test = ast.Constant(value=True)
+    elif op.startswith("decodrop"):
+        del n.decorator_list[int(op[8:])]
+    elif op == "baseswap":
+        n.bases[0], n.bases[1] = n.bases[1], n.bases[0]
     ast.fix_missing_locations(t)
     return ast.unparse(t)
 
